@@ -226,6 +226,7 @@ class Analysis:
         self.on_loop_pre = on_loop_pre
         self.on_loop_entry = on_loop_entry
         self.on_backedge = on_backedge
+        self.on_loop_exit = None   # on_loop_exit(f, head, state): state leaves the loop through the head's exit edge
         self.prog = prog
         self.invariant = invariant
         self.on_store = on_store
@@ -685,7 +686,7 @@ class Analysis:
                 break
             blk = f.blocks[bid]
             self.blocks_visited.add((f.name, bid))
-            if bid in heads:
+            if bid in heads and frm != "__seeded__":
                 if frm is not None and frm in heads[bid]:
                     if self.on_backedge is not None:
                         self.on_backedge(f, bid, s)
@@ -695,7 +696,12 @@ class Analysis:
                     self.on_loop_pre(f, bid, s)
                 self.havoc(f, heads[bid], s)
                 if self.on_loop_entry is not None:
-                    self.on_loop_entry(f, bid, s)
+                    r_ = self.on_loop_entry(f, bid, s)
+                    if isinstance(r_, list):
+                        # the hook re-established a disjunctive invariant: one entry state per disjunct
+                        for s_ in r_:
+                            work.append((bid, s_, "__seeded__"))
+                        continue
             k = (bid, s.key())
             if k in seen:
                 continue
@@ -759,7 +765,10 @@ class Analysis:
                     if sc.get("to") is None:
                         continue
                     for s1 in (cond_states[0] if sc.get("label") == "true" else cond_states[1]):
-                        work.append((sc["to"], s1.copy(), bid))
+                        s1 = s1.copy()
+                        if self.on_loop_exit is not None and bid in heads and sc["to"] not in heads[bid]:
+                            self.on_loop_exit(f, bid, s1)
+                        work.append((sc["to"], s1, bid))
             else:
                 for sc in blk.succs:
                     if sc.get("to") is None:
